@@ -161,11 +161,29 @@ fn run_one<H: HK>(rep: &mut Report, check: &str, tier: &str) {
 
 pub fn run_c04(tier: &str, config: &str) -> Report {
     let mut rep = Report::new("C04", tier, config);
-    rep.rule = "4 BLAKE variants x {every length 0..=9B+3 (thorough 33B+3) of zeros / counting bytes / 0xff} + every one-hot message of lengths B-9, B-8, B, 2B-9 + lengths 2^k-1,2^k,2^k+1 for k=9..16 (20); digest compared with vref::blake (scalar G, bit-string padding, constants derived from pi and square roots); distinct_nontrivial = distinct expected digests".into();
+    rep.rule = "4 BLAKE variants x {every length 0..=9B+3 (thorough 33B+3) of zeros / counting bytes / 0xff} + every one-hot message of lengths B-9, B-8, B, 2B-9 + lengths 2^k-1,2^k,2^k+1 for k=9..16 (20); under CPUID dispatch and again under each of SSE2/SSSE3/SSE4.1/AVX/AVX2 forced through hook H1 (generic backend in the no_simd build); digest compared with vref::blake (scalar G, bit-string padding, constants derived from pi and square roots); distinct_nontrivial = distinct expected digests".into();
     run_one::<KBlake224>(&mut rep, "C04", tier);
     run_one::<KBlake256>(&mut rep, "C04", tier);
     run_one::<KBlake384>(&mut rep, "C04", tier);
     run_one::<KBlake512>(&mut rep, "C04", tier);
+    // the same (quick) domain under every backend forced through hook H1
+    for be in crate::guts::backend_list() {
+        if be == 0 {
+            continue;
+        }
+        crate::guts::force_backend(be);
+        let mut sub = Report::new("C04", tier, config);
+        run_one::<KBlake224>(&mut sub, "C04", "quick");
+        run_one::<KBlake256>(&mut sub, "C04", "quick");
+        run_one::<KBlake384>(&mut sub, "C04", "quick");
+        run_one::<KBlake512>(&mut sub, "C04", "quick");
+        rep.evaluations += sub.evaluations;
+        for (k, mut v) in sub.violations {
+            v.sig = format!("{}:forced-{}", k, crate::guts::BACKENDS[be as usize]);
+            rep.violations.insert(v.sig.clone(), v);
+        }
+    }
+    crate::guts::force_backend(0);
     rep
 }
 pub fn run_c06_digests(rep: &mut Report, tier: &str) {
